@@ -31,7 +31,7 @@ func coqMesg(m *proto.Message, withHeader bool) string {
 	return fmt.Sprintf("(%d, %d, %s, %s)", h, m.Num, coqList(fs), coqList(ds))
 }
 
-func coqMesgs(ms []proto.Message, withHeader bool) string {
+func coqProtoMesgs(ms []proto.Message, withHeader bool) string {
 	items := make([]string, len(ms))
 	for i := range ms {
 		items[i] = coqMesg(&ms[i], withHeader)
@@ -41,7 +41,7 @@ func coqMesgs(ms []proto.Message, withHeader bool) string {
 
 func coqFit(f *proto.FIT) string {
 	h := f.FileHeader
-	return fmt.Sprintf("((%d, %d, %d, %d, %d), %s, %d)", h.Size, h.ProtocolVersion, h.ProfileVersion, h.DataSize, h.CRC, coqMesgs(f.Messages, true), f.CRC)
+	return fmt.Sprintf("((%d, %d, %d, %d, %d), %s, %d)", h.Size, h.ProtocolVersion, h.ProfileVersion, h.DataSize, h.CRC, coqProtoMesgs(f.Messages, true), f.CRC)
 }
 
 // error classes of Model/Base.v
